@@ -328,9 +328,9 @@ def conds(tier):
     return [
         xh.Cond(M, "c01_function", t(300, 3000), kind=sb, examples=["t0=9, t1=11, d0=3, r=3, tp=4, nargs=3, nsdepth=3", "t0=16, t1=0, d0=10, r=6, tp=2, nargs=1, nsdepth=0"],
                 bounds="%d type expressions (const, */@/&, namespaces to depth 2, template arguments to depth 3 incl. glued >>) x %d default shapes%s" % (
-                    NTY, ND, " x all second types x 8 return shapes x 5 template headers x 0-3 args x depth 0-3" if not q else " (other choices derived)")),
+                    NTY, ND, " x %d second types (return / template header / arity / depth derived)" % NTY if not q else " (other choices derived)")),
         xh.Cond(M, "c01_class", t(300, 3000), kind=sb, examples=["k1=6, k2=4, t0=3, d0=2, r=1, base=3, virt=1, tp=2, nsdepth=1", "k1=11, k2=13, t0=9, d0=5, r=7, base=4, virt=0, tp=4, nsdepth=2"],
-                bounds="%d x %d member-kind pairs%s" % (NMK, NMK, " x %d types x %d defaults x %d bases" % (NTY, ND, NB) if not q else " (types / defaults / bases derived)")),
+                bounds="%d x %d member-kind pairs%s" % (NMK, NMK, " x %d member types (defaults / bases derived)" % NTY if not q else " (types / defaults / bases derived)")),
         xh.Cond(M, "c01_toplevel", t(300, 3000), kind=sb, examples=["ka=2, kb=9, kc=4, t0=7, d0=3, nsdepth=2", "ka=3, kb=10, kc=8, t0=1, d0=1, nsdepth=3"],
                 bounds="%d x %d%s sibling declaration kinds x namespace depth 0-3" % (NTK, NTK, " x %d" % NTK if not q else " (third derived)")),
     ]
